@@ -49,16 +49,13 @@ CFG = {
                     "selector cases contain no pause / resume / dispose ops (a selector is not owner-scoped; an owner created under a paused root inherits `paused`, which the model's per-effect flag does not follow)"],
     "manifest": {
         "category": "proof",
-        "text": "PROVED: C02_effects_converge_readonly - for every well-formed program (tracked reads), every history of writes/reads/polls in ANY polling order, at every idle "
-                "point every effect whose own body does not write a signal has last run against the current from-scratch values of everything it read (other effects may write; "
-                "invariant InvR + effect lemmas, Proofs/ReactiveConv.lean). For effects that write, the statement is REFUTED by a kernel-checked witness confirmed on the real "
-                "Effect (F-C02-2, a feedback loop: known finding). The lost-update defect of the code as found (F-C02-1) was REPAIRED by /repo commit 4084efd; its witness stays as a "
-                "regression theorem about the pre-repair model (runOld). No-glitch during runs follows from C01_read_eq_scratch (every read inside a run returns the from-scratch value). "
-                "Also proved for ALL well-formed programs and all op kinds: C02_disposed_never_runs and C02_paused_never_runs (no run of e is ever logged after its disposal / while it is paused), C02_effects_converge_nofeedback (convergence for writing effects too when no effect writes a signal on which a node it reads depends), C02_unnotified_effect_current (between any two ops). Wake order is covered by the executable model + correspondence oracle, not by a theorem. The model "
-                "(Effect::new, RenderEffect, pause/resume/dispose at effect and root level, wake order, effects writing signals) is tied to reactive_graph by differential "
-                "correspondence under arbitrary polling orders.",
+        "text": (
+            'Lean 4 theorems, all for every well-formed program, every history of writes/reads/polls in ANY polling order incl. pause/resume/dispose: C02_effects_converge_readonly (at every idle point every effect whose own body does not write has last run against the current from-scratch values of everything it read; other effects may write), C02_effects_converge_nofeedback (writing effects too, when no effect writes a signal a node it reads depends on), C02_unnotified_effect_current, C02_disposed_never_runs, C02_paused_never_runs, C02_no_glitch (every read event in the whole run log - effect bodies and the memo bodies they pull, writer effects included - carries the from-scratch value of the signal environment at that log position), C02_wake_order (the effects woken by a write that reach the signal only through their own direct subscription are woken in subscription order; the unrestricted form is refuted by a kernel-checked counter-example) and C02_subs_order_kept. '
+            'For effects with self-feedback the convergence statement is REFUTED by a kernel-checked witness confirmed on the real Effect (F-C02-2: known finding). Two defects of the code as found were REPAIRED in /repo: F-C02-1 lost update (4084efd) and F-C02-3 WriteSignal/Trigger notify drained the subscriber set (2b9d3c6); their witnesses stay as regression theorems / corpus cases. '
+            'The model (Effect::new/new_sync/new_isomorphic/watch/watch_sync, RenderEffect::new/new_isomorphic, ImmediateEffect in its glitch-free shape, Selector, pause/resume/dispose at effect and root level, on_cleanup accounting, wake order, effects writing signals) is tied to reactive_graph by differential correspondence under arbitrary polling orders on a controlled executor.'
+        ),
         "design_ref": "DESIGN.md §7 C02",
-        "note": "hand-written model validated by correspondence; convergence proved for read-only effects; lifecycle and wake-order clauses by correspondence only",
+        "note": "hand-written model validated by correspondence; nested effect creation is covered in the C04 and C08 models",
         "technique": "Lean 4 proof (invariant over histories and schedules) + refutation/regression witnesses + differential correspondence",
     },
 }
